@@ -45,6 +45,37 @@ func jobsFor(prop, tier string) []Job {
 				mk("c10-2x2-recover", params("T", 2, "E", 2, "RECOVER", 1)),
 			)
 		}
+	case "DBG":
+		js = []Job{{Name: "dbg", Pkg: "table", Fn: "VH_Dbg", Inits: true, Samples: 1}}
+	case "C11":
+		mk := func(name, pkg, fn string, p map[string]int) Job {
+			return Job{Name: name, Pkg: pkg, Fn: fn, Inits: true, Samples: 3, Params: p,
+				Bounds:  map[string]any{"entries": p["N"], "key_lengths": "digits of KL", "value_lengths": "digits of VL", "content": "all bytes, tombstone and 64-bit version symbolic", "params": p},
+				Assumes: []string{aS2, "encoding/binary.Write/Read = exact little-endian byte model", "sync.Pool returns a previously Put buffer (single-P order: private slot, then shared LIFO)", "frugal/thrift-binary model of types.Entry (WAL harness)", aFS},
+				Outside: []string{"the s2 bit format for symbolic content", "more entries / longer keys than the listed configurations", "unsynchronised simultaneous use of one buffer (data races are C12)"}}
+		}
+		js = []Job{
+			mk("c11-data-n2", "table", "VH_C11_Data", params("N", 2, "KL", 21, "VL", 10)),
+			mk("c11-data-n3-prefix", "table", "VH_C11_Data", params("N", 3, "KL", 233, "VL", 102)),
+			mk("c11-index-n2", "table", "VH_C11_Index", params("N", 2, "KL", 20)),
+			mk("c11-footermeta", "table", "VH_C11_FooterMeta", params()),
+			mk("c11-table-n2", "table", "VH_C11_Table", params("N", 2, "KL", 32, "VL", 11)),
+			mk("c11-wal-k2", "wal", "VH_C11_WAL", params("K", 2)),
+			mk("c11-long-val-65535", "table", "VH_C11_Long", params("LEN", 65535, "WHICH", 0)),
+			mk("c11-long-val-65536", "table", "VH_C11_Long", params("LEN", 65536, "WHICH", 0)),
+			mk("c11-long-key-65536", "table", "VH_C11_Long", params("LEN", 65536, "WHICH", 1)),
+		}
+		if thorough {
+			js = append(js,
+				mk("c11-data-n3-mixed", "table", "VH_C11_Data", params("N", 3, "KL", 313, "VL", 20)),
+				mk("c11-index-n3", "table", "VH_C11_Index", params("N", 3, "KL", 123)),
+				mk("c11-table-n3", "table", "VH_C11_Table", params("N", 3, "KL", 222, "VL", 101)),
+				mk("c11-wal-k3", "wal", "VH_C11_WAL", params("K", 3)),
+				mk("c11-long-val-65537", "table", "VH_C11_Long", params("LEN", 65537, "WHICH", 0)),
+				mk("c11-long-prefix-65536", "table", "VH_C11_Long", params("LEN", 65536, "WHICH", 2)),
+				mk("c11-long-key-65533", "table", "VH_C11_Long", params("LEN", 65533, "WHICH", 1)),
+			)
+		}
 	case "C13":
 		mk := func(name, fn string, p map[string]int, sched int) Job {
 			return Job{Name: name, Pkg: "pkg/watermark", Fn: fn, Inits: true, Samples: 4, Params: p, Sched: sched > 0, MaxDev: sched,
